@@ -61,4 +61,10 @@ HARNESSES = [
          cases=_shapes(range(0, 7), 2, "quick",
                        loops=["fill_files.0", "fill_files.1",
                               "clear_file_list.0"])),
+    dict(name="unpack_main", file="unpack_main.c",
+         include_dirs=["bin/rdsquashfs/src"],
+         fp={"destroy": "stub_obj_destroy"},
+         label="proved", timeout=600, unwind=6,
+         cases=[dict(id="distinct", defines={}, tier="quick"),
+                dict(id="dup", defines={"DUP": None}, tier="quick")]),
 ]
